@@ -482,7 +482,7 @@ func cmdCheck(args []string) int {
 			writeJSON(rp, map[string]interface{}{"property": *prop, "obligation": t.Name, "verdict": "violated", "detail": t.Detail,
 				"replay": "ground obligation over literal tables extracted from the working tree; the failing entries are listed in detail"})
 			line := fmt.Sprintf("VIOLATION property=%s replay=%s", *prop, rp)
-			if strings.HasPrefix(t.Name, "writers/") || strings.HasPrefix(t.Name, "closers/") || strings.HasPrefix(t.Name, "updaters/") || strings.HasPrefix(t.Name, "callers/") {
+			if strings.HasPrefix(t.Name, "writers/") || strings.HasPrefix(t.Name, "closers/") || strings.HasPrefix(t.Name, "updaters/") || strings.HasPrefix(t.Name, "callers/") || strings.HasPrefix(t.Name, "table/skipped-") || strings.HasPrefix(t.Name, "table/refused-") || strings.HasPrefix(t.Name, "table/decompression-") || strings.HasPrefix(t.Name, "table/compress-") {
 				// a structural scan names the offending function, it has no failing input of its own
 				line += " no-failing-input-found"
 			}
